@@ -6,7 +6,7 @@ mod verif_string {
     use super::*;
     use read_fonts::{tables::name::LangTagRecord, FontData};
 
-    //@harness unit=U02.10 props=C02,C01 tier=quick level=bounded bound="language tag of any length <= 64 B (32 UTF-16 units: past the 30-character inline capacity) whose units are ASCII a except one arbitrary unit at any position" timeout=1800 fns=Language::from_name_string,Language::as_str,NameString::chars,CharIter::next
+    //@harness unit=U02.10 props=C02,C01 tier=quick level=bounded bound="language tag of any length <= 64 B (32 UTF-16 units: past the 30-character inline capacity) whose units are ASCII a except one arbitrary unit at any position" timeout=1800 fns=Language::from_name_string,NameString::chars,CharIter::next
     #[kani::proof]
     #[kani::unwind(36)]
     fn language_tag_decoding_total_and_exact() {
@@ -34,7 +34,7 @@ mod verif_string {
             match &r {
                 Some(l) => {
                     assert!(ascii && units <= MAX_INLINE_LANGUAGE_LEN);
-                    assert!(l.as_str().len() == units);
+                    assert!(matches!(l, Language::Inline { len: n, .. } if *n as usize == units));
                 }
                 None => assert!(!ascii || units > MAX_INLINE_LANGUAGE_LEN),
             }
